@@ -132,6 +132,10 @@ func (c *Compactor) Compact() (*CompactionResult, error) {
 
 	// Create temp file for new data (always V3 format with name in header area)
 	tempPath := c.filePath + ".compact"
+	// A leftover temp file from an interrupted compaction must not be reused: the
+	// writer would open it for appending and its stale entries would end up in the
+	// compacted file.
+	_ = os.Remove(tempPath)
 	writer, err := NewFileWriterWithName(tempPath, c.maxBlockSize, swampName)
 	if err != nil {
 		result.Error = err
